@@ -213,14 +213,14 @@ def nested_fn(fn_item, name):
     return it
 
 
-def replace_sub_arm(item, pattern, new_body, count=1, rule="EB"):
+def replace_sub_arm(item, pattern, new_body, count=1, rule="EB", only_blocks=False):
     """replace the block of every match arm inside `item` whose pattern text equals `pattern`"""
     toks, text = item._toks, item.orig
     want = _norm(pattern)
     hits = []
     for _, ob, cb, _ in _match_bodies(toks, 0, len(toks)):
         for p0, p1, b0, b1, is_block in _arms(toks, ob, cb):
-            if _norm(_span_text(text, toks, p0, p1)) == want:
+            if _norm(_span_text(text, toks, p0, p1)) == want and (is_block or not only_blocks):
                 hits.append((toks[b0].start, toks[b1].end))
     hits = sorted(set(hits))
     if len(hits) != count:
